@@ -207,6 +207,10 @@ func c19Ops(c c19cfg) []c19op {
 		for _, p := range c.prefixes {
 			ops = append(ops, c19op{name: "enqueue", prefix: p})
 		}
+		// several prefixes in one call (the provider enqueues batches): same effect as one by one, in order
+		for _, many := range []string{"00,1", "0,01,1", "01,0", "000,001,1", "1,0", "10,11,0"} {
+			ops = append(ops, c19op{name: "enqueueMany", prefix: many})
+		}
 		ops = append(ops, c19op{name: "dequeue"})
 		for _, p := range c.prefixes {
 			ops = append(ops, c19op{name: "remove", prefix: p})
@@ -443,6 +447,13 @@ func c19RunReprovide(x *vmc.X, c c19cfg) {
 		case "enqueue":
 			q.Enqueue(bitstr.Key(op.prefix))
 			m.push(op.prefix)
+		case "enqueueMany":
+			var ks []bitstr.Key
+			for _, p := range strings.Split(op.prefix, ",") {
+				ks = append(ks, bitstr.Key(p))
+				m.push(p)
+			}
+			q.Enqueue(ks...)
 		case "dequeue":
 			p, ok := q.Dequeue()
 			mok := len(m.prefixes) > 0
